@@ -94,11 +94,12 @@ def networks():
 
 
 def templates():
-    """the literal template strings handed to `self.match(…)` inside info_for_script, in code order, compiled by the
+    """the literal template strings handed to `self.match(…)` inside ContractAPI (info_for_script), in code order, compiled by the
     network's own script tools (all bitcoinish networks share BitcoinScriptTools)"""
     from pycoin.networks.ContractAPI import ContractAPI
     from pycoin.coins.bitcoin.ScriptTools import BitcoinScriptTools as st
-    src = textwrap.dedent(inspect.getsource(ContractAPI.info_for_script))
+    # info_for_script itself, or the helper it delegates the template walk to
+    src = textwrap.dedent(inspect.getsource(ContractAPI))
     tree = ast.parse(src)
     found = []
     for node in ast.walk(tree):
